@@ -198,9 +198,134 @@ def run(chk):
                 except Undecided as e:
                     v, d = UNDECIDED, e.cause
                 chk.add("C17.S", key, v, d, where=where_of(b))
+    profile_effects(chk)
     chk.floor("C17.S binary forms", forms_n, 24)
     chk.notes["n_range"] = [0, nmax]
     chk.notes["configurations"] = ["debug-assertions+overflow-checks on", "both off"]
     if chk.tier == "thorough":
         from .. import witnesses
         witnesses.run(chk, "C17", ['W3'])
+
+
+def profile_effects(chk):
+    """C17.P - effect discipline across build profiles.  Every body is extracted twice (debug assertions and overflow
+    checks on / off).  A call that exists only in the debug body sits inside a `debug_assert!`; if one of its
+    arguments is a mutable reference that reaches a parameter of the function (or its return place), the function
+    writes caller-visible state in one build and not in the other: the two builds cannot return identical results."""
+    fd, fr_ = F.load("dbg"), F.load("rel")
+    rel_bodies = {b["key"]: b for b in fr_.lib_bodies()}
+    bodies = 0
+    only_dbg = 0
+
+    def live_blocks(b):
+        """blocks reachable from the entry when switches on compile-time constants (cfg!(debug_assertions)) are resolved"""
+        blocks = b["mir"]["blocks"]
+        cdef = {}
+        for blk in blocks:
+            for st_ in blk["stmts"]:
+                if st_["k"] == "assign" and not st_["place"]["p"]:
+                    l = st_["place"]["l"]
+                    rv = st_["rv"]
+                    ok = rv["k"] == "use" and rv["op"]["k"] == "const" and isinstance(rv["op"].get("val"), (bool, int))
+                    cdef[l] = (rv["op"]["val"] if ok and l not in cdef else None)
+        seen, todo = set(), [0]
+        while todo:
+            x = todo.pop()
+            if x in seen or x is None or x >= len(blocks):
+                continue
+            seen.add(x)
+            t = blocks[x]["term"]
+            k = t["k"]
+            if k == "switch":
+                d = t["discr"]
+                val = None
+                if d["k"] == "const" and isinstance(d.get("val"), (bool, int)):
+                    val = int(d["val"])
+                elif d["k"] in ("copy", "move") and not d["place"]["p"] and cdef.get(d["place"]["l"]) is not None:
+                    val = int(cdef[d["place"]["l"]])
+                if val is not None:
+                    tgt = t["otherwise"]
+                    for v_, tg in t["arms"]:
+                        if v_ == val:
+                            tgt = tg
+                    todo.append(tgt)
+                else:
+                    todo += [tg for _, tg in t["arms"]] + [t["otherwise"]]
+            else:
+                for f_ in ("t", "target", "unwind", "cleanup"):
+                    if isinstance(t.get(f_), int):
+                        todo.append(t[f_])
+                if k == "assert":
+                    todo.append(t.get("t"))
+        return seen
+
+    def calls(b):
+        out = []
+        live = live_blocks(b)
+        for bi, blk in enumerate(b["mir"]["blocks"]):
+            if bi not in live:
+                continue
+            t = blk["term"]
+            if t["k"] == "call":
+                f_ = t.get("func") or {}
+                out.append((((f_.get("resolved") or {}).get("path")) or f_.get("path") or "?", t))
+        return out
+
+    for b in fd.lib_bodies():
+        rb = rel_bodies.get(b["key"])
+        if rb is None or b.get("mir") is None or rb.get("mir") is None:
+            continue
+        bodies += 1
+        rel_count = {}
+        for p_, _ in calls(rb):
+            rel_count[p_] = rel_count.get(p_, 0) + 1
+        locals_ = b["mir"]["locals"]
+        nargs = len(b["sig"]["inputs"]) if b.get("sig") else 0
+        defs = {}
+        for blk in b["mir"]["blocks"]:
+            for st_ in blk["stmts"]:
+                if st_["k"] == "assign":
+                    defs.setdefault(st_["place"]["l"], []).append(st_["rv"])
+
+        def roots(l, seen):
+            """locals an address-carrying local derives from (through reborrows / copies / moves)"""
+            if l in seen:
+                return set()
+            seen.add(l)
+            if l <= nargs:
+                return {l}
+            out = set()
+            for rv in defs.get(l, []):
+                if rv["k"] in ("ref", "addr_of", "copy_for_deref"):
+                    out |= roots(rv["place"]["l"], seen)
+                elif rv["k"] in ("use", "cast") and (rv.get("op") or {}).get("k") in ("copy", "move"):
+                    out |= roots(rv["op"]["place"]["l"], seen)
+            return out or {l}
+        for p_, t in calls(b):
+            if rel_count.get(p_, 0) > 0:
+                rel_count[p_] -= 1
+                continue
+            if p_.startswith("core::panicking") or p_.startswith("std::rt::") or "panic" in p_ or "assert_failed" in p_ or "fmt::Arguments" in p_:
+                continue
+            only_dbg += 1
+            key = "%s calls %s only with debug assertions" % (b["path"], p_)
+            muts = []
+            for a_ in t["args"]:
+                if a_["k"] in ("copy", "move"):
+                    ty = locals_[a_["place"]["l"]]["ty"]
+                    if ty.get("k") == "ref" and ty.get("mut"):
+                        muts.append((a_["place"]["l"], ty.get("s")))
+            if not muts:
+                chk.add("C17.P", key, PROVED, "", where=where_of(b))
+                continue
+            hit = [(l, s_, sorted(r for r in roots(l, set()) if r <= nargs)) for l, s_ in muts]
+            reach = [(l, s_, r) for l, s_, r in hit if r]
+            if reach:
+                l, s_, r = reach[0]
+                what = "the return place" if r == [0] else "parameter %s" % ", ".join(str(x) for x in r if x)
+                chk.add("C17.P", key, REFUTED, "the call receives %s derived from %s, so it writes caller-visible state only when debug assertions are on; "
+                        "release builds skip it and return a different result" % (s_, what), where=where_of(b))
+            else:
+                chk.add("C17.P", key, UNDECIDED, "debug-only call with a mutable reference to a local (%s)" % ", ".join(s_ for _, s_, _ in hit), where=where_of(b))
+    chk.add("C17.P", "bodies compared across the two configurations", PROVED if bodies >= 150 else UNDECIDED, "%d bodies" % bodies)
+    chk.notes["debug_only_calls"] = only_dbg
